@@ -39,6 +39,13 @@ def step (_ : Unit) (ws : List String) : Unit × String :=
         | .error .trailing => "err trailing steps=" ++ toString (decodeSteps ts b)
         | .ok (vs, r) => "ok " ++ String.intercalate " " (vs.map showVal) ++ " unread=" ++ hex r
       | _, _ => "bad-op"
+    | ["handler", schema, p] =>
+      match (if schema == "-" then some [] else schema.toList.mapM parseTy), unhex p with
+      | some ts, some b =>
+        (match syncDispatch ts b with
+         | .carriesOn => "carries-on"
+         | .closeProtocolError => "closes:ProtocolError")
+      | _, _ => "bad-op"
     | ["der", sl, lim, p] =>
       match sl.toNat?, lim.toNat?, unhex p with
       | some sl, some lim, some b =>
@@ -78,15 +85,17 @@ def step (_ : Unit) (ws : List String) : Unit × String :=
         (if r.2.2 then "done" else "running") ++ " n=" ++ toString r.2.1.length ++ " sizes=" ++
           String.intercalate "," (r.2.1.map fun d => toString d.length) ++ " window=" ++ toString r.1.window
       | _, _, _, _ => "bad-op"
-    | ["data", d, w] =>
-      match d.toNat?, w.toNat? with
-      | some d, some w => (match processData d w with | .deliver => "deliver" | .protocolError => "protocol-error")
-      | _, _ => "bad-op"
+    | ["data", d, w, b] =>
+      match d.toNat?, w.toNat?, b.toNat? with
+      | some d, some w, some b =>
+        (match processData d w b with | .deliver => "deliver" | .protocolError => "protocol-error")
+      | _, _, _ => "bad-op"
     | ["user", n] =>
       match n.toNat? with
       | some n => if Gen.C10.usernameTooLong n then "too-long" else "ok"
       | none => "bad-op"
-    | ["safe"] => if openSafe then "open-guarded" else "open-unguarded"
+    | ["safe"] => (if openSafe then "open-guarded" else "open-unguarded") ++ " " ++
+        (if sendLoopGuarded then "send-loop-guarded" else "send-loop-unguarded")
     | _ => "bad-op"
   ((), r)
 
